@@ -1,6 +1,8 @@
 """C07: global declarations are reported completely, later declarations winning."""
 from __future__ import annotations
 
+import os
+
 from . import gen
 from .common import Batch, Result, canon_json, conv_tree, err_class, raw_parse, render_doc, rng_for
 from .decsnap import impl_queries, model_queries, ref_widths
@@ -98,6 +100,28 @@ def run(ctx):
                 return impl_queries(q)
 
             res.remember({"text": text}, again, impl)
+        if res.evaluations % 5 == 1 and len(doc) >= 2:
+            # the same statements given as two files (the first ending in a comment without line end, str and pathlib.Path
+            # arguments): every statement of every file is accounted for
+            import pathlib
+            import tempfile
+
+            k = rng.randint(1, len(doc) - 1)
+            with tempfile.TemporaryDirectory(prefix="verif_c07_") as td:
+                f1, f2 = os.path.join(td, "a.dec"), os.path.join(td, "b.dec")
+                open(f1, "w").write(render_doc(doc[:k]) + rng.choice(["# end of the common part", "", "#"]))
+                open(f2, "w").write(render_doc(doc[k:]))
+                try:
+                    q = DecFileParser(f1, pathlib.Path(f2))
+                    q.parse()
+                    via_files = impl_queries(q)
+                except Exception as e:
+                    via_files = f"{type(e).__name__}: {e}"
+            res.count("two_file_inputs")
+            if canon_json(via_files) != canon_json(impl):
+                bad = [k2 for k2 in impl if not isinstance(via_files, dict) or canon_json(via_files.get(k2)) != canon_json(impl[k2])]
+                res.violation("the statements given as two files are not all reflected in the queries", dict(case, split_after=k), impl=bad[:4] or via_files,
+                              clause=(bad[0] if bad else "queries"))
         # direct statement of "later wins" for the plain dictionaries
         direct = {
             "aliases": spec_last_wins([(s[1], s[2]) for s in doc if s[0] == "alias"]),
@@ -142,7 +166,7 @@ def run(ctx):
             res.count("siblings")
     from . import decsmall
 
-    for doc in decsmall.docs(3, ((seed + 12) % 16, 16) if tier == "quick" else (0, 2), need=()):
+    for doc in decsmall.docs(3, ((seed + 12) % 32, 32) if tier == "quick" else (0, 2), need=()):
         uses_alias = any(ln[3][0] == "alias" for st in doc if st[0] == "decay" for ln in st[2])
         if uses_alias and not any(st[0] == "model_alias" for st in doc):
             continue    # a line naming an undefined ModelAlias: rightly refused (C06); not a well-formed text
